@@ -288,6 +288,17 @@ def main(pid, tier, seed):
             extra['dir'] = m.get('dir')
         verdict.violation(dict(m, clause=v[2], **extra), 'clause %s; %s' % (v[2], core.short(m, 260)))
 
+    def corrupt(t):
+        if t['kind'] == 'load' and t['out']:
+            t['out'][0]['p'] = [t['out'][0]['p'][0] + 1, t['out'][0]['p'][1]]      # a loaded probability that is not the rescaled one
+            return t
+        if t['kind'] == 'stream' and len(t['skp']) >= 2:
+            t['skp'] = t['skp'][:-1]                                                 # a non-Markov pre-terminal missing under --skip_brute
+            return t
+        return None
+    accepted = [t for t in traces if verdicts[t['tid']][0] == 'ACCEPT']
+    selftest = core.binding_selftest('TrLoader.tla', accepted, corrupt)
+
     def has_m(m):
         return any(x[0] == 'M' for x in m.get('file', m.get('base', [])))
 
@@ -315,7 +326,7 @@ def main(pid, tier, seed):
                    'stream/lower trace = one ruleset loaded and enumerated with and without the flag; lines trace = two '
                    'pcfg_guesser.py processes (start with flags, resume with plain --load)',
            'trace_kinds': kinds, 'model_files_instantiated': len(files), 'cli_pairs': len(jobs),
-           'trace_validation': st, 'exhaustive': False, 'known_findings_reproduced': n_known,
+           'trace_validation': st, 'exhaustive': False, 'known_findings_reproduced': n_known, 'binding_selftest': selftest,
            'violation_histogram': verdict.histogram()}
     core.write_evidence(pid, tier, seed, 'model_checking', cov, time.time() - t0, violations=n_viol,
                         assumptions=['TLC', 'loaded probabilities rationalised with Fraction.limit_denominator(64) (+1e-12 residue flag)',
